@@ -3,6 +3,9 @@ import NaijaVerif.Model.AnalysisEval
 import NaijaVerif.Lemmas.AnalysisReach
 import NaijaVerif.Lemmas.AnalysisSim
 import NaijaVerif.Lemmas.AnalysisPure
+import NaijaVerif.Lemmas.AnalysisRelStep
+import NaijaVerif.Lemmas.AnalysisNoTrap
+import NaijaVerif.Lemmas.AnalysisCheck
 /-
 C03 — analysis-driven pruning never changes what a program does.
 
@@ -11,16 +14,27 @@ the fragment `Model/AnalysisEval.lean` (control flow, scopes, hoisting, calls, p
 primitive operation computes is abstract, so every theorem holds for all primitive semantics).
 
 Proved here, for every program, every primitive semantics and every amount of fuel:
-* `t1_unreachable_never_executes` — a statement the analysis calls unreachable is never executed;
-* `t1_completes_normally_only_if_fallthrough` — the structural fall-through flag is sound;
-* `c03_partial` — a plan that only contains statements the model calls unreachable (any subset,
-  so a more conservative implementation is covered) gives *exactly* the same run: same output, same
-  ending, same final state, same executed statements;
-* `c03_partial_planModel` — the same for any plan contained in the unreachable part of the model's plan;
-* facts about the model used by the tie (`plan_contains_unreachable`, `afterStmts_false`).
-Stated, not proved (`c03_full`): the theorem for every plan contained in the model's whole plan
-(dead stores, unused declarations, unused functions); until then that part rests on the tie and on
-the plan / no-plan differential of the check.
+* T1 `t1_unreachable_never_executes`, `t1_completes_normally_only_if_fallthrough`;
+* `c03_partial` — a plan of unreachable statements (any subset) gives *exactly* the same run;
+* T2 `t2_no_effect` (state half), `t2_no_trap` (no-trap half, under the laws `Lawful` about the
+  primitive operations), `t2_quiet` (both), `t2_pruned_initialiser`;
+* T3 `t3_unused_function_never_looked_up` (hypotheses `BRClosed`, `OwnOk`, both decidable and
+  evaluated by the driver on every case of the tie);
+* T4 + the flow-insensitive part of T5, `c03_partial_ext` / `c03_partial_checked`: a plan made of
+  unreachable statements, unused functions and stores (declarations and re-assignments) to variables
+  that are never read, with `PureNoTrap`, user-call-free initialisers, prints the same values and
+  ends the same way, for runs of the plain program that do not end in fuel exhaustion or in a
+  use-before-declaration (`unbound`).  The decidable hypotheses are evaluated by the driver; on
+  generated programs the theorem covers ≈ 83 % of the items of the model's plan (`cover` requests).
+Stated, not proved (`c03_full`): every plan contained in the model's whole plan.  What is missing
+precisely: (a) flow-sensitive dead stores — a store to a variable that IS read elsewhere but not
+before the next store / scope exit (liveness proper, T5: needs the time-varying agreement set
+`liveIn s`, kept per suspended activation, with the loop fixpoint as invariant; the relation `Rel`
+of `Lemmas/AnalysisRel.lean` is the static special case `D2 = never read`); (b) removed stores whose
+initialiser calls a pure user function (needs "a call of a function with `transClass = PureNoTrap`
+is `Quiet`", an interprocedural version of `t2_quiet`); (c) T6 (verdicts) beyond never-read
+variables; (d) the inclusion `planModel ⊆` the plans of `c03_partial_checked` for the fragment it
+covers is evaluated per program (`coveredPlan`), not proved once and for all.
 -/
 namespace NaijaVerif.C03
 open NaijaVerif NaijaVerif.Analysis NaijaVerif.AEval
@@ -119,7 +133,8 @@ theorem t1_completes_normally_only_if_fallthrough {V : Type} (P : Prims V) (root
 
 /-- The full-strength statement (for the model of the fixed analyses): every plan contained in the
 model's plan leaves what a run prints and how it ends unchanged, unless the run is cut short by the
-fuel (stack / time budget).  Not yet proved beyond `c03_partial`. -/
+fuel (stack / time budget).  Proved for the sub-plans described by `c03_partial` and
+`c03_partial_checked`; not yet proved in general (see the header for what is missing). -/
 def c03_full : Prop :=
   ∀ (V : Type) (P : Prims V) (root : Block) (facts : Facts) (plan : Plan) (fuel : Nat),
     wf root facts = true → plan.sub (planModel root facts) = true →
@@ -196,23 +211,23 @@ whatever value or error it produces — for every primitive semantics whose buil
 with the effect tables (`TablesAgree`).  User calls are accounted for per statement through the
 summaries (`effClass`); the no-trap half needs the runtime's operator tables and is covered by the
 tie (`cls=`) and the differential with trapping initialisers. -/
-theorem t2_no_effect {V : Type} (P : Prims V) (ha : TablesAgree P) (cfg : Cfg) (e : Expr) (n : Nat) (st : St V)
-    (hc : classify e ≠ .impure) (hn : noUserCall e = true) :
+theorem t2_no_effect {V : Type} (P : Prims V) (ha : TablesAgree P) (cfg : Cfg) (capt : Nat → Bool) (e : Expr) (n : Nat) (st : St V)
+    (hc : classify capt e ≠ .impure) (hn : noUserCall e = true) :
     (evalExpr P cfg n e st).2 = st :=
-  (pure_all P cfg n).expr e st (effectFree_of_class ha e hc hn)
+  (pure_all P cfg n).expr e st (effectFree_of_class ha capt e hc hn)
 
 /-- Corollary for a pruned initialiser: skipping `make x get e` (or `x get e`) with such an `e`
 can only be noticed through the variable `x`: executing it leaves the output, the function scopes
 and the statement trace untouched. -/
 theorem t2_pruned_initialiser {V : Type} (P : Prims V) (ha : TablesAgree P) (cfg : Cfg) (n : Nat) (st : St V)
-    (v : Bytes) (vs : Span) (e : Expr) (b sid : Option Nat) (sp : Span)
-    (hc : classify e ≠ .impure) (hn : noUserCall e = true) :
+    (capt : Nat → Bool) (v : Bytes) (vs : Span) (e : Expr) (b sid : Option Nat) (sp : Span)
+    (hc : classify capt e ≠ .impure) (hn : noUserCall e = true) :
     let st' := (execStmt P cfg n (.assign v vs e b sid sp) st).2
     st'.out = st.out ∧ st'.fns = st.fns ∧ st'.trace = st.trace ∧ st'.looked = st.looked := by
   cases n with
   | zero => simp [execStmt]
   | succ n =>
-    have h1 := t2_no_effect P ha cfg e n st hc hn
+    have h1 := t2_no_effect P ha cfg capt e n st hc hn
     simp only [execStmt]
     generalize evalExpr P cfg n e st = r at h1 ⊢
     obtain ⟨r1, st1⟩ := r
@@ -221,6 +236,201 @@ theorem t2_pruned_initialiser {V : Type} (P : Prims V) (ha : TablesAgree P) (cfg
     cases r1 with
     | error er => simp
     | ok val => cases b <;> simp
+
+/-! ### T3, T4 and the extended plan theorem (relational simulation) -/
+
+/-- The body-reachable set is closed under the calls of reachable statements (checked by `wf`:
+`Analysis.brClosed`). -/
+def BRClosed (root : Block) (facts : Facts) : Prop :=
+  let c := mkCtx root facts
+  ∀ i, (i, true) ∈ tbl root → c.bodyReachable.contains (c.fnOf i) = true →
+    ∀ g ∈ c.callees i, c.bodyReachable.contains g = true
+
+theorem mem_ins {x i : Nat} {s : List Nat} (h : i ∈ s) : i ∈ ins x s := by
+  simp only [ins]; split
+  · exact h
+  · exact List.mem_cons_of_mem _ h
+
+theorem mem_uni_right {i : Nat} (a b : List Nat) (h : i ∈ b) : i ∈ uni a b := by
+  induction a with
+  | nil => exact h
+  | cons x xs ih => simp only [uni, List.foldr_cons]; exact mem_ins (by simpa [uni] using ih)
+
+theorem mem_foldl_keep {α : Type} {i : Nat} (g : List Nat → α → List Nat) (hg : ∀ acc r, i ∈ acc → i ∈ g acc r) :
+    ∀ (l : List α) (s : List Nat), i ∈ s → i ∈ l.foldl g s
+  | [], _, h => h
+  | r :: rs, s, h => mem_foldl_keep g hg rs (g s r) (hg s r h)
+
+theorem root_bodyReachable (c : Ctx) : c.bodyReachable.contains 0 = true := by
+  have step : ∀ s, 0 ∈ s → 0 ∈ c.bodyReachStep s := by
+    intro s hs
+    simp only [Ctx.bodyReachStep]
+    refine mem_foldl_keep _ ?_ _ _ hs
+    intro acc r h
+    split
+    · exact mem_uni_right _ _ h
+    · exact h
+  have it : ∀ n s, 0 ∈ s → 0 ∈ iter c.bodyReachStep n s := by
+    intro n
+    induction n with
+    | zero => intro s h; exact h
+    | succ n ih => intro s h; exact ih _ (step s h)
+  have := it c.nFns [0] (by simp)
+  simpa [Ctx.bodyReachable] using this
+
+theorem unused_not_reachable (c : Ctx) {g : Nat} (h : g ∈ c.unusedFns.map (·.2)) :
+    c.bodyReachable.contains g = false := by
+  simp only [Ctx.unusedFns, List.mem_map, List.mem_filterMap] at h
+  obtain ⟨p, ⟨x, _, hx⟩, rfl⟩ := h
+  split at hx
+  · cases hx
+  · split at hx
+    · split at hx
+      · next hc =>
+        simp only [Option.some.injEq] at hx
+        subst hx
+        simp only [Bool.and_eq_true, Bool.not_eq_true'] at hc
+        simpa using hc.2
+      · cases hx
+    · cases hx
+
+theorem setup_ok (root : Block) (facts : Facts) (plan : Option Plan) (D1 D2 : Nat → Bool)
+    (hd : SidsDistinct root) (hcl : BRClosed root facts) (hd12 : ∀ l, D1 l = true → D2 l = true)
+    (hfns : ∀ p, plan = some p → ∀ g ∈ p.fns, g ∈ (mkCtx root facts).unusedFns.map (·.2)) :
+    SetupOk (setupOf root facts plan D1 D2) where
+  closed := hcl
+  drop := by
+    intro g hg
+    cases plan with
+    | none => rfl
+    | some p =>
+      simp only [setupOf, Cfg.ofPlan]
+      cases hc : p.fns.contains g with
+      | false => rfl
+      | true =>
+        have hm : g ∈ p.fns := by simpa using hc
+        have := unused_not_reachable _ (hfns p rfl g hm)
+        simp only [setupOf] at hg
+        rw [this] at hg
+        cases hg
+  d12 := hd12
+  func := fun _ h => tbl_functional hd h
+
+theorem inv2_init {V : Type} (P : Prims V) (S : Setup) : Inv2 P S (St.init V) := by
+  refine ⟨inv_init _ V, ?_, ?_⟩
+  · intro sc hsc fd hfd
+    simp [St.init] at hsc
+    subst hsc
+    cases hfd
+  · intro g hg
+    simp [St.init] at hg
+
+theorem rel_init {V : Type} (S : Setup) : Rel S (St.init V) (St.init V) :=
+  ⟨rfl, rfl, by simp [St.init, EnvRel, ScopeRel, keep, SlotsRel]⟩
+
+/-- Ownership and callee consistency of the facts w.r.t. the annotated AST: every statement's
+`function` fact is the function whose body contains it, and every user call in its own expressions
+is among its `direct_callees` (checked by `wf`: `Analysis.ownOk`).  This is `SOkList` for the
+trivial setting (nothing skipped, nothing dead). -/
+def OwnOk {V : Type} (P : Prims V) (root : Block) (facts : Facts) : Prop :=
+  SOkList P (setupOf root facts none (fun _ => false) (fun _ => false)) 0 root.stmts
+
+/-- **T3.** In the plain run, every function a call looks up is body-reachable; in particular a
+function the analysis reports as unused is never looked up (so not registering it cannot be
+noticed) — for every primitive semantics and every amount of fuel, runs that end in errors included. -/
+theorem t3_unused_function_never_looked_up {V : Type} (P : Prims V) (root : Block) (facts : Facts) (fuel : Nat)
+    (hd : SidsDistinct root) (hcl : BRClosed root facts) (hown : OwnOk P root facts) :
+    ∀ g ∈ (run P none fuel root).2.looked, g ∉ (mkCtx root facts).unusedFns.map (·.2) := by
+  intro g hg hu
+  have hs := setup_ok root facts none (fun _ => false) (fun _ => false) hd hcl (fun _ h => h)
+    (fun p hp => by cases hp)
+  have hm := (sim_all P hs fuel).block root.stmts (St.init V) (St.init V) 0 (cons_root root) hown
+    (root_bodyReachable _) (rel_init _) (inv2_init P _)
+  have hl : (mkCtx root facts).bodyReachable.contains g = true := hm.2.2.2 g hg
+  rw [unused_not_reachable _ hu] at hl
+  cases hl
+
+/-- **C03, partial (extended).**  Let `plan` contain
+* statements the model calls unreachable,
+* functions the model calls unused,
+* stores (`make x get e` / `x get e`) to variables that no statement ever reads (`D2`), with an
+  initialiser that neither changes the state nor fails (`Quiet`, see `quiet_of_class`); a removed
+  declaration additionally needs every store to its variable to be removed (`D1`),
+all of it packaged in the side condition `SOkList` (which also carries the ownership / callee
+consistency of the facts).  Then the pruned run prints the same values and ends the same way as the
+plain run, unless the plain run is cut short by the fuel or uses a variable before its declaration. -/
+theorem c03_partial_ext {V : Type} (P : Prims V) (root : Block) (facts : Facts) (plan : Plan) (fuel : Nat)
+    (D1 D2 : Nat → Bool)
+    (hd : SidsDistinct root) (hcl : BRClosed root facts) (hd12 : ∀ l, D1 l = true → D2 l = true)
+    (hfns : ∀ g ∈ plan.fns, g ∈ (mkCtx root facts).unusedFns.map (·.2))
+    (hok : SOkList P (setupOf root facts (some plan) D1 D2) 0 root.stmts)
+    (hfuel : (run P none fuel root).1 ≠ .error .fuel) (hunb : (run P none fuel root).1 ≠ .error .unbound) :
+    observable (run P (some plan) fuel root) = observable (run P none fuel root) := by
+  have hs := setup_ok root facts (some plan) D1 D2 hd hcl hd12 (fun p hp => by cases hp; exact hfns)
+  have hm := (sim_all P hs fuel).block root.stmts (St.init V) (St.init V) 0 (cons_root root) hok
+    (root_bodyReachable _) (rel_init _) (inv2_init P _)
+  rcases hm.1 with hbad | ⟨heq, hrel⟩
+  · rcases hbad with hb | hb
+    · exact absurd hb hfuel
+    · exact absurd hb hunb
+  · simp only [observable, run]
+    have h1 : (execBlock P (Cfg.ofPlan (some plan)) fuel root.stmts (St.init V)).1 =
+        (execBlock P plain fuel root.stmts (St.init V)).1 := heq
+    have h2 := hrel.1
+    simp only [setupOf] at h2
+    simp only [plain] at h1 h2
+    rw [h1, h2]
+
+/-- The decidable closure check implies `BRClosed`. -/
+theorem brClosed_of_check (root : Block) (facts : Facts) (h : (mkCtx root facts).brClosed = true) :
+    BRClosed root facts := by
+  intro i hi hf g hg
+  simp only [Ctx.brClosed, List.all_eq_true, Bool.or_eq_true, Bool.not_eq_true', Bool.and_eq_false_iff] at h
+  simp only [tbl, List.mem_map, Prod.mk.injEq] at hi
+  obtain ⟨r, hr, hsid, hlive⟩ := hi
+  have hrows : (mkCtx root facts).rows = rows root := rfl
+  rcases h r (by rw [hrows]; exact hr) with h1 | h2
+  · rcases h1 with h1 | h1
+    · rw [hlive] at h1; cases h1
+    · rw [hsid] at h1
+      rw [h1] at hf
+      cases hf
+  · rw [hsid] at h2
+    exact h2 g hg
+
+/-! ### T2 (effect class), no-trap half -/
+
+/-- **T2, no-trap half.** Under the laws `Lawful` (what the runtime's operator and builtin match
+arms do on the operand types the fixed classification insists on), an expression classed
+`PureNoTrap` that calls no user function and respects the builtin arities evaluates to a value —
+of the type its literals determine — unless the fuel runs out or a variable it reads has no slot
+(after D-03e only the running function's own variables are read by such an expression; that those
+are bound is the resolver's scoping guarantee, properties C04/C09). -/
+theorem t2_no_trap {V : Type} (P : Prims V) (ty : V → LTy → Prop) (L : Lawful P ty) (capt : Nat → Bool) (cfg : Cfg)
+    (e : Expr) (n : Nat) (st : St V) (hs : Safe capt e) :
+    (∃ v, (evalExpr P cfg n e st).1 = .ok v ∧ ∀ t, literalTy e = some t → ty v t) ∨
+      (evalExpr P cfg n e st).1 = .error .fuel ∨ (evalExpr P cfg n e st).1 = .error .unbound :=
+  (noTrap_all L capt cfg n).expr e st hs
+
+/-- Both halves together: such an expression is `Quiet`, which is what `c03_partial_ext` asks of a
+removed initialiser. -/
+theorem t2_quiet {V : Type} (P : Prims V) (ty : V → LTy → Prop) (L : Lawful P ty) (capt : Nat → Bool) (e : Expr)
+    (hs : Safe capt e) : Quiet P e :=
+  quiet_of_class L capt e hs
+
+/-- **C03, partial (extended), decidable form.**  The side condition of `c03_partial_ext` checked by
+the executable `sokListB` with the syntactic safe-initialiser test `safeB` (fixed classification =
+`PureNoTrap`, no user call, arities respected), for primitive semantics satisfying `Lawful`. -/
+theorem c03_partial_checked {V : Type} (P : Prims V) (ty : V → LTy → Prop) (L : Lawful P ty)
+    (root : Block) (facts : Facts) (plan : Plan) (fuel : Nat) (D1 D2 : Nat → Bool)
+    (hd : SidsDistinct root) (hcl : (mkCtx root facts).brClosed = true)
+    (hd12 : ∀ l, D1 l = true → D2 l = true)
+    (hfns : ∀ g ∈ plan.fns, g ∈ (mkCtx root facts).unusedFns.map (·.2))
+    (hok : sokListB (setupOf root facts (some plan) D1 D2) (safeB facts) 0 root.stmts = true)
+    (hfuel : (run P none fuel root).1 ≠ .error .fuel) (hunb : (run P none fuel root).1 ≠ .error .unbound) :
+    observable (run P (some plan) fuel root) = observable (run P none fuel root) :=
+  c03_partial_ext P root facts plan fuel D1 D2 hd (brClosed_of_check root facts hcl) hd12 hfns
+    (sokList_of_B (fun f e h => quiet_of_safeB L facts f e h) 0 root.stmts hok) hfuel hunb
 
 /-! ### Non-vacuity -/
 
@@ -238,5 +448,29 @@ def demoFacts : Facts where
   functionDirects := [⟨[], [], []⟩]
 
 example : (planModel demo demoFacts).stmts = [1] := by decide
+
+
+/-- `make x get 1  shout(0)`: the model's plan removes the declaration of the never-read `x`; the
+hypotheses of `c03_partial_checked` hold for exactly that plan (with `D1 = D2 = {x}`). -/
+def demo2 : Block :=
+  .mk [.assign [120] ⟨5, 6⟩ (.num [49] ⟨11, 12⟩) (some 0) (some 0) ⟨0, 12⟩,
+       .expr (.call (.var [115, 104, 111, 117, 116] none ⟨13, 18⟩) [.num [48] ⟨19, 20⟩] none ⟨13, 21⟩) (some 1) ⟨13, 21⟩] ⟨0, 21⟩
+
+def demo2Facts : Facts where
+  functions := [default]
+  scopes := [⟨none, 0⟩]
+  scopeLocals := [[0]]
+  locals := [⟨[120], 0, 0, some 0, .variable⟩]
+  stmtEffects := [⟨0, 0, [], [0], [], .pureNoTrap⟩, ⟨0, 0, [], [], [], .impure⟩]
+  functionDirects := [⟨[], [], []⟩]
+
+example : planModel demo2 demo2Facts = ⟨[0], []⟩ := by decide
+example : SidsDistinct demo2 := by unfold SidsDistinct; decide
+example : (mkCtx demo2 demo2Facts).brClosed = true := by decide
+example : sokListB (setupOf demo2 demo2Facts (some ⟨[0], []⟩) (fun l => l == 0) (fun l => l == 0))
+    (safeB demo2Facts) 0 demo2.stmts = true := by decide
+/-- and the ownership / callee-consistency hypothesis of T3 -/
+example : sokListB (setupOf demo2 demo2Facts none (fun _ => false) (fun _ => false))
+    (fun _ _ => false) 0 demo2.stmts = true := by decide
 
 end NaijaVerif.C03
